@@ -52,6 +52,24 @@ theorem C19_findfirst_state (fuel : Nat) (t : Val) (e : Str) (re : Bool) :
   · exact this
   · split <;> exact this
 
+/-- **A call changes at most the last element of the list object it received** (the only in-place
+updates are `found_xpath_list[-1] += …` and `found_xpath_list[-1] = …`): all elements but the
+last are as they were, for every call, outcome and starting contents. -/
+theorem C19_list_changes_last_only (re : Bool) (fuel : Nat) (node : Val) (toks : List Str) (fl : FL) (ps : PS) :
+    (fa re fuel node toks fl ps).fl.dropLast = fl.dropLast :=
+  fa_dl re fuel node toks fl ps
+
+/-- **The model returns values only, and only values of the tree.**  `findallTop` is a function of
+the tree, the expression and the contents of the defaults; the tree is an input and is not part
+of what a search returns (`Out`), so there is nothing through which the model could change it —
+that the real code never writes into the tree is checked by the evaluators `search`/`history`
+(encoding before = after).  What can be said inside the model: every value of the returned
+mapping occurs in the tree searched (it is the tree, an element of a list or the value of an
+entry of a dictionary occurring in it) — the search neither invents nor rebuilds values. -/
+theorem C19_pure (fuel : Nat) (t : Val) (e : Str) (f : Found)
+    (h : (findallTop fuel fresh t e).res = .ok (some f)) : ∀ kv ∈ f, Sub t kv.2 :=
+  fa_sub t true fuel t (tokens e) [] [] Sub.refl (by intro kv hkv; cases hkv) f h
+
 /-! ## 2. exact paths -/
 
 /-- **An exact path finds exactly its node.**  For a dict-rooted tree and a non-root position
@@ -127,6 +145,21 @@ theorem C19_fanout (re : Bool) (fuel : Nat) (cls : Cls) (xs : List Val) (name : 
   have hs : classify ['[', '*', ']'] = .star := by decide
   simp only [fa, step, hn, stepName, hs]
 
+/-- **Fan-out over all elements.**  When every element of the list is a dictionary or a list, a
+name applied to the list returns the outcomes of *all* elements, element `i` searched for the
+same expression under the path `…[i]`, merged in order (`mergeAll`: `dict.update`, the first
+exception wins). -/
+theorem C19_fanout_all (re : Bool) (fuel : Nat) (cls : Cls) (xs : List Val) (name : Str) (rest : List Str)
+    (fl : FL) (ps : PS) (hn : classify name = .name name) (hfl : fl ≠ [])
+    (hall : ∀ x ∈ xs, FindAll.isContainer x = true) :
+    (fa re (fuel + 2) (.list cls xs) (name :: rest) fl ps).res =
+      mergeAll (fanCalls (fun c cur => fa re fuel c (name :: rest) cur (push ps cur (.list cls xs)))
+        fl.dropLast (fl.getLast?.getD []) 0 xs) [] := by
+  rw [C19_fanout re fuel cls xs name rest fl ps hn]
+  have he : fl.isEmpty = false := by cases fl with | nil => exact absurd rfl hfl | cons _ _ => rfl
+  simp only [stepStar, he, Bool.false_eq_true, if_false]
+  exact starLoop_fan _ re _ (fun c cur => fa_dl re fuel c _ cur _) xs hall 0 fl []
+
 /-! ## statements kept visible, checked differentially only -/
 
 /-- every list of the tree contains only dictionaries or lists (the property's quantifier) and
@@ -200,5 +233,11 @@ example : (runHist 20 fresh [(exTree, ['.', '.']), (exTree, ['n'])]).1
 example : (findfirstTop 20 fresh exTree ['l', '/', 'n'] true).1 = .error .IndexError := by decide
 example : (findfirstTop 20 fresh exTree ['z'] false).1 = .ok Option.none := by decide
 example : classify ['n'] = .name ['n'] := by decide
+-- `C19_pure`, `C19_list_changes_last_only`: a search that returns container nodes; a call that really writes
+example : Sub exTree (.int 0) := Sub.entry (t := exTree) (k := ['n']) (Sub.refl (t := exTree)) (by simp)
+example : (fa true 20 (.list .n0 [.dict .n0 []]) [['[', '0', ']']] [['l']] []).fl = [['l', '[', '0', ']']] := by decide
+-- `C19_fanout_all`: both elements are visited
+example : (fa true 20 (.list .n0 [.dict .n0 [(['n'], .int 1)], .dict .n0 [(['n'], .int 2)]]) [['n']] [['l']] []).res
+    = .ok (some [(['/', '/', 'l', '[', '0', ']', '/', 'n'], .int 1), (['/', '/', 'l', '[', '1', ']', '/', 'n'], .int 2)]) := by decide
 
 end N0.C19
